@@ -9,7 +9,7 @@ Proved here, for ALL inputs satisfying the stated hypotheses:
   ccw_eq_exact_outside_band, ccw_int_exact, ccw_in_band_default   is_ccw_polyline
   ccw_polygon_iff_area_pos                                        is_ccw_polygon = sign of the shoelace area
   point_in_polygon_kernel_inside / _separated_outside /
-  point_in_convex_polygon_spec                                    point_in_polygon (winding test)
+  point_in_convex_polygon_outside / _spec                         point_in_polygon (winding test)
   collinear_spec, planar_exact, planar_spec                       integer inputs: coded True ⇔ exact zero
   half_space_spec                                                 the counting loop = ∀ planes
   sort_point_pairs_chain                                          whatever is returned is a valid chain
@@ -103,8 +103,22 @@ theorem point_in_polygon_separated_outside (poly : List P2) (p n : P2) (d : Bool
   obtain ⟨v', hv', rfl⟩ := List.mem_map.mp hv
   exact h v' hv'
 
-/-- Convex counter-clockwise polygon (every vertex on the closed left of every edge line), `p` on
-    no edge line: the coded answer is the exact one, "strictly left of every edge". -/
+/-- Convex counter-clockwise polygon (every vertex on the closed left of every edge line): a point
+    strictly on the right of SOME edge line is reported outside — also when it lies on the
+    extension of another edge. -/
+theorem point_in_convex_polygon_outside (poly : List P2) (p : P2) (d : Bool)
+    (hconv : ∀ e ∈ cycPairs poly, ∀ v ∈ poly, 0 ≤ cross2 (sub2 e.2 e.1) (sub2 v e.1))
+    (e : P2 × P2) (he : e ∈ cycPairs poly) (hneg : cross2 (sub2 e.1 p) (sub2 e.2 p) < 0) :
+    pointInPolygon poly p d = false := by
+  -- the polygon is strictly on the left of the line through p parallel to the edge e
+  apply point_in_polygon_separated_outside poly p (-(e.2.2 - e.1.2), e.2.1 - e.1.1) d
+  intro v hv
+  have hc := hconv e he v hv
+  simp only [dot2, cross2, sub2] at hc hneg ⊢
+  nlinarith
+
+/-- Convex counter-clockwise polygon, `p` on no edge line: the coded answer is the exact one,
+    "strictly left of every edge". -/
 theorem point_in_convex_polygon_spec (poly : List P2) (p : P2) (d : Bool) (hne : poly ≠ [])
     (hconv : ∀ e ∈ cycPairs poly, ∀ v ∈ poly, 0 ≤ cross2 (sub2 e.2 e.1) (sub2 v e.1))
     (hoff : ∀ e ∈ cycPairs poly, cross2 (sub2 e.1 p) (sub2 e.2 p) ≠ 0) :
@@ -120,12 +134,7 @@ theorem point_in_convex_polygon_spec (poly : List P2) (p : P2) (d : Bool) (hne :
       exact hc ⟨e, he, h'⟩
     have hneg : cross2 (sub2 e.1 p) (sub2 e.2 p) < 0 :=
       lt_of_le_of_ne (not_lt.mp hlt) (hoff e he)
-    -- the polygon is strictly on the left of the line through p parallel to the edge e
-    rw [point_in_polygon_separated_outside poly p (-(e.2.2 - e.1.2), e.2.1 - e.1.1) d, decide_eq_false hall]
-    intro v hv
-    have hc := hconv e he v hv
-    simp only [dot2, cross2, sub2] at hc hneg ⊢
-    nlinarith
+    rw [point_in_convex_polygon_outside poly p d hconv e he hneg, decide_eq_false hall]
 
 example : pointInPolygon [(0, 0), (4, 0), (4, 3), (0, 3)] (1, 1) false = true ∧
     pointInPolygon [(0, 0), (4, 0), (4, 3), (0, 3)] (5, 1) true = false ∧
@@ -396,5 +405,53 @@ example : sortPointPairs [(1, 3), (1, 2), (2, 3)] true true
 example : sortPointPairs [(1, 2), (0, 1), (2, 3)] true false
     = .ok [⟨1, (0, 1), false⟩, ⟨0, (1, 2), false⟩, ⟨2, (2, 3), false⟩] := by decide +kernel
 example : sortPointPairs [(1, 2), (3, 4)] true true = .error .assertion := by decide +kernel
+
+
+/-- Completeness for simple cycles (circular mode, with or without the closing check): let the
+    first column be `(a₀, a₁)` and let the remaining columns be, in any order and with any flips,
+    the lines of the path `a₁ → … → a_k → a₀` through pairwise distinct nodes.  Then no assertion
+    fails and the output is the cycle walked from `a₀` through `a₁`. -/
+theorem sort_point_pairs_cycle_complete (a0 a1 : Int) (mid : List Int) (tl : List Line) (check : Bool)
+    (hnd : (a1 :: (mid ++ [a0])).Nodup)
+    (hperm : (tl.map normL).Perm ((pathLines (a1 :: (mid ++ [a0]))).map normL)) :
+    ∃ out, sortPointPairs ((a0, a1) :: tl) check true = .ok out
+      ∧ out.map (·.line) = (a0, a1) :: pathLines (a1 :: (mid ++ [a0])) := by
+  have hrem : ((enumFrom' 1 tl).map (fun jl => normL jl.2)).Perm
+      ((pathLines (a1 :: (mid ++ [a0]))).map normL) := by
+    have : (enumFrom' 1 tl).map (fun jl => normL jl.2) = tl.map normL := by
+      conv => rhs; rw [← map_snd_enumFrom' 1 tl]
+      rw [List.map_map]; rfl
+    rw [this]; exact hperm
+  obtain ⟨out, hw, hout⟩ := walk_path (mid ++ [a0]) a1 (enumFrom' 1 tl) (enumFrom' 1 tl).length
+    hnd (le_refl _) hrem
+  obtain ⟨z, hz1, hz2⟩ := pathLines_getLast a1 (mid ++ [a0]) (by simp)
+  have hlast : lastEnd ⟨0, (a0, a1), false⟩ out = a0 := by
+    unfold lastEnd
+    have h1 : (out.map (·.line)).getLast? = some z := by rw [hout]; exact hz1
+    rw [List.getLast?_map] at h1
+    cases hg : out.getLast? with
+    | none => simp [hg] at h1
+    | some r =>
+      simp only [hg, Option.map_some, Option.some.injEq] at h1
+      simp only [Option.getD_some, h1]
+      have : some z.2 = some a0 := by rw [hz2]; simp
+      exact Option.some.inj this
+  refine ⟨⟨0, (a0, a1), false⟩ :: out, ?_, by simp [hout]⟩
+  unfold sortPointPairs
+  simp only [if_true, enumFrom', List.drop_succ_cons, List.drop_zero]
+  simp only [Nat.zero_add, hw, hlast]
+  simp
+
+/-- instance of the hypotheses: the cycle 1 → 3 → 2 → 1 given as (1,3), (1,2), (2,3) -/
+example : ([3, 2, 1] : List Int).Nodup ∧
+    (([(1, 2), (2, 3)] : List Line).map normL).Perm ((pathLines [3, 2, 1]).map normL) := by decide +kernel
+
+/-
+Not proved: the corresponding statement for `is_circular = False` (an open path with pairwise
+distinct nodes, in any column order and with any flips, is never rejected and comes out ordered
+from one end to the other).  The start selection (`bincount`, first column holding an end node,
+flip if the first entry is not the end node) is modelled and covered by the correspondence check
+and the oracle; `sort_point_pairs_chain` holds for that mode as well.
+-/
 
 end PorepyVerif.C31
